@@ -161,7 +161,8 @@ def negate(v):
     c = _NOCONST
     if const_num(v) is not None:
         c = -v.const
-    return v.replace(sign=sign_neg(v.sign), const=c, mono=frozenset(), sym=(-v.sym) if v.sym is not None else None,
+    return v.replace(note=("neg-of", v.sign) if v.kind == K_SCALAR else None,
+                     sign=sign_neg(v.sign), const=c, mono=frozenset(), sym=(-v.sym) if v.sym is not None else None,
                      expo=(-v.expo) if v.expo is not None else None,
                      origin=frozenset(["lit"]) if v.kind == K_SCALAR else frozenset(["a@neg"]))
 
@@ -710,6 +711,11 @@ def subscript(I, fr, base, idx, node, quiet=False):
             f0 = lo is None or (int_const(lo) == 0)
     if not quiet:
         I.emit("subscript", fr, node, base=b, index=idx, basic=basic, comps=comps)
+        for c_ in comps:
+            if c_ is not None and c_.kind == K_SLICE and c_.items is not None:
+                up = c_.items[1]
+                if up is not None and isinstance(up.note, tuple) and up.note and up.note[0] == "neg-of" and up.note[1] != S_POS and not up.has_const():
+                    I.emit("neg-zero-slice", fr, node, bound=up, base=b)   # x[:-k] with k possibly 0 selects nothing
     ext = None
     if kind == K_SCALAR and len(comps) == 1 and 0 in b.mono and b.shape is not None and len(b.shape) == 1:
         k = int_const(comps[0])
@@ -750,7 +756,7 @@ def nd_attr(I, fr, base, attr, node):
         if attr == "size" and b.shape is not None and len(b.shape) == 1:
             sym = b.shape[0]
         return AV(kind=K_SCALAR, dtype="int", shape=(), sym=sym, sign=S_NONNEG,
-                  alg={at: alg_shape(b.a(at)) for at in b.atoms()})
+                  alg={at: alg_shape(b.a(at)) for at in b.atoms()}, tags=b.tags | frozenset(["len-of"]), origin=frozenset(["lit"]))
     if attr == "dtype":
         return AV(kind=K_OBJ, note="dtype", tags=b.tags | frozenset(["dtype-of"]))
     if attr in ("real", "imag"):
@@ -799,7 +805,7 @@ def call_builtin(I, fr, name, args, kwargs, node):
         if n is None:
             n = LinExpr(fresh_atom("$n"))
         return AV(kind=K_SCALAR, dtype="int", shape=(), sym=n, sign=sign, const=c, alg=_shape_alg(a0),
-                  tags=a0.tags, indef=a0.indef, origin=frozenset(["lit"]),
+                  tags=a0.tags | frozenset(["len-of"]), indef=a0.indef, origin=frozenset(["lit"]),
                   expo=Exp(c) if c is not _NOCONST else None)
     if name == "range":
         if len(args) == 1:
@@ -2090,7 +2096,7 @@ def _put(C):
         ind, vals = None, C.num(1)
     else:
         ind, vals = as_num(C.arg(1)), C.num(2)
-    C.mutate(target, lambda a, vals=vals, ind=ind: C.I.elem_join(a, vals, ind), how=C.name)
+    C.I.mutate(C.fr, target, C.node, C.name, lambda a, vals=vals, ind=ind: C.I.elem_join(a, vals, ind), value=vals, index=ind)
     return const_av(None)
 
 
